@@ -4,6 +4,8 @@
 set -u
 ID=$1; PATCH=$(readlink -f "$2"); TIER=${3:-quick}
 D=/var/tmp/vs/mut-$$
+CK=$(echo $D | cksum | cut -d' ' -f1)
+trap 'rm -rf $D /verif/build/alt-$CK /tmp/mut-$$.out' EXIT
 mkdir -p /var/tmp/vs && rsync -a --exclude _build --exclude .git /repo/ $D/
 if ! (cd $D && patch -p1 -s < "$PATCH"); then echo "PATCH-FAILED $PATCH"; rm -rf $D; exit 3; fi
 cd /verif
